@@ -796,6 +796,11 @@ func mgInjectConflict(rng *rand.Rand, p *reg.Pkg, g *treeGen, a, b ygot.Validate
 			if s.kind == "leaf" {
 				cands = append(cands, s)
 			}
+		case "ordleaf":
+			// a leaf below an entry of an ordered list that both trees hold
+			if s.kind == "leaf" && s.inOrd {
+				cands = append(cands, s)
+			}
 		case "bin":
 			if s.kind == "leaf" && mgLeafKind(s.sf.Type) == "bin" {
 				cands = append(cands, s)
@@ -1057,7 +1062,7 @@ func mgProjectComplement(rng *rand.Rand, p *reg.Pkg, g ygot.GoStruct, keep float
 type mgMergeInput struct {
 	Pkg   string `json:"pkg"`
 	Seed  int64  `json:"seed"`
-	Force string `json:"force,omitempty"` // directed case: "bin" (binary leaf conflict), "emptybin" (prune)
+	Force string `json:"force,omitempty"` // directed case: "bin" (binary leaf conflict), "ordleaf", "union-same-raw", "unionll", "emptybin" (prune)
 }
 
 func mgMergeCase(p *reg.Pkg, seed int64, force string, id *int, tf *treeFile, sum *Summary, seen map[string]bool) {
@@ -1317,6 +1322,10 @@ func mgMergeStream(rng *rand.Rand, n int, tier string, out string) (*Summary, er
 			// directed: union leaf-lists that overlap without being equal
 			for i := 0; i < 4; i++ {
 				mgMergeCase(p, rng.Int63(), "unionll", &id, tf, sum, seen)
+			}
+			// directed: two different values of a leaf below an ordered-list entry held by both trees
+			for i := 0; i < 4; i++ {
+				mgMergeCase(p, rng.Int63(), "ordleaf", &id, tf, sum, seen)
 			}
 			for i := 0; i < shares[name]; i++ {
 				mgMergeCase(p, rng.Int63(), "", &id, tf, sum, seen)
